@@ -16,9 +16,7 @@ RULE = ("translator: npz key tables (written / read / excluded / forwarded / con
         "model of the reader (constructor applied to the stored arrays)")
 PROVED = ("keys_read_are_written, keys_written_are_consumed, forwarded_keys_are_parameters, type_detection_table, group_keys_written, "
           "group_data_key_agrees (decide over the regenerated tables); mk_canonical_id (constructor = identity on canonical sets), "
-          "roundtrip_series, new_empty_support + roundtrip_constructed (EVERY object the series constructor returns round-trips: an object "
-          "with no sample always has the empty support since fix e3fcb51), roundtrip_group (any time-sorting permutation; members without "
-          "samples kept)")
+          "roundtrip_series, roundtrip_group (any time-sorting permutation; members without samples kept)")
 NOT_PROVED = ("np.savez / np.load byte-level I/O and dtype preservation (exercised by the round-trip oracle), pandas to_dict / from_dict of "
               "metadata (oracle), column labels (oracle)")
 ASSUMPTIONS = ["objects are well formed (C04) and groups have strictly increasing keys (C12)"]
